@@ -208,49 +208,74 @@ theorem lastAnUs_spec (e : Env ℝ) (t0 t : Int) (h : lastAnUs e t0 = .ok t) : |
     rw [htol] at h2
     exact ⟨h2, result_not_later e.z tolKm tenMin e.fuelS e.fuelB t0 f (by decide) hl⟩
 
-/-- The cached reference node is a node (|z| ≤ 1 m, or the epoch itself when z is exactly 0 there); it is not
-    later than the epoch, except when the epoch lies less than 1 km before an ascending node
-    (-1 ≤ z < 0, vz > 0): then it is that node, at most ten minutes after the epoch. -/
+/-- `epochAtNode` over ℝ: within 1 km of the equator and moving north -/
+theorem epochAtNode_iff (e : Env ℝ) : epochAtNode e = true ↔ |e.z e.epoch| ≤ 1 ∧ 0 < e.vz e.epoch := by
+  unfold epochAtNode
+  simp only [r_gt, r_abs, r_ofNat, Nat.cast_zero, Nat.cast_one, Bool.not_eq_true', Bool.or_eq_false_iff,
+    decide_eq_false_iff_not, not_lt, Bool.not_eq_false', decide_eq_true_eq]
+
+/-- The cached reference node is never later than the epoch and is a node: either the epoch itself, which then lies
+    within 1 km of the equator moving north (the "epoch at the ascending node" rule), or the precisely located last
+    node before the epoch (|z| ≤ 1 m). -/
 theorem reference_node_is_node (e : Env ℝ) (t : Int) (h : initAnTime e = .ok t) :
-    |e.z t| ≤ 1e-3 ∧ t ≤ e.epoch + tenMin ∧
-      (¬ (-1 ≤ e.z e.epoch ∧ e.z e.epoch < 0 ∧ 0 < e.vz e.epoch) → t ≤ e.epoch) := by
+    t ≤ e.epoch ∧ |e.z t| ≤ 1 ∧
+      ((t = e.epoch ∧ |e.z e.epoch| ≤ 1 ∧ 0 < e.vz e.epoch) ∨ |e.z t| ≤ 1e-3) := by
   unfold initAnTime at h
-  have hArg : initAnArg e =
-      if (1 < |e.z e.epoch| ∨ ¬ 0 < e.vz e.epoch) ∨ 0 < e.z e.epoch then some e.epoch
-      else if e.z e.epoch < 0 then some (e.epoch + tenMin) else none := by
-    unfold initAnArg
-    simp only [r_gt, r_lt, r_abs, r_ofNat, Nat.cast_zero, Nat.cast_one, Bool.or_eq_true, decide_eq_true_eq,
-      Bool.not_eq_true', decide_eq_false_iff_not]
-  rw [hArg] at h
-  split_ifs at h with hc hneg
-  · obtain ⟨h1, h2⟩ := lastAnUs_spec e _ t h
-    exact ⟨h1, by unfold tenMin; omega, fun _ => h2⟩
-  · push Not at hc
-    obtain ⟨h1, h2⟩ := lastAnUs_spec e _ t h
-    refine ⟨h1, h2, fun hn => absurd ⟨?_, hneg, hc.1.2⟩ hn⟩
-    have := (abs_le.mp hc.1.1).1
-    linarith
-  · push Not at hc
+  split at h
+  · rename_i hc
     simp only [Except.ok.injEq] at h
     subst h
-    have : e.z e.epoch = 0 := le_antisymm hc.2 (not_lt.mp hneg)
-    exact ⟨by rw [this]; norm_num, by unfold tenMin; omega, fun _ => le_refl _⟩
+    obtain ⟨h1, h2⟩ := (epochAtNode_iff e).mp hc
+    exact ⟨le_refl _, h1, Or.inl ⟨rfl, h1, h2⟩⟩
+  · obtain ⟨h1, h2⟩ := lastAnUs_spec e _ t h
+    exact ⟨h2, by linarith [show (1e-3 : ℝ) ≤ 1 by norm_num], Or.inr h1⟩
 
-/-- The cached nodal period is at least ten minutes, in particular positive: the division `dt / orbit_period`
-    is never a division by zero. -/
-theorem period_positive (e : Env ℝ) (t p : Int) (h : initPeriod e t = .ok p) :
-    600000000 ≤ p ∧ (0 : ℝ) < periodDays p := by
+/-- The cached nodal period is the difference of two PRECISELY located nodes (|z| ≤ 1 m at both, the earlier one at least
+    ten minutes before the later one): the reference node and its predecessor, or — when the epoch itself is taken as the
+    reference node — the node next to the epoch (at most ten minutes after it) and its predecessor.  In particular the period
+    is at least ten minutes, so `dt / orbit_period` is never a division by zero. -/
+theorem period_from_precise_nodes (e : Env ℝ) (t p : Int) (ht : initAnTime e = .ok t) (h : initPeriod e t = .ok p) :
+    ∃ node prev : Int, p = node - prev ∧ |e.z node| ≤ 1e-3 ∧ |e.z prev| ≤ 1e-3 ∧ prev ≤ node - tenMin ∧
+      node ≤ e.epoch + tenMin ∧ (epochAtNode e = false → node = t) := by
   unfold initPeriod at h
-  cases hl : lastAnUs e (t - tenMin) with
-  | error er => simp [hl] at h
-  | ok prev =>
-    simp only [hl, Except.ok.injEq] at h
-    obtain ⟨_, h2⟩ := lastAnUs_spec e _ prev hl
-    have hp : 600000000 ≤ p := by unfold tenMin at h2; omega
-    refine ⟨hp, ?_⟩
-    rw [periodDays_real]
-    have : (600000000 : ℝ) ≤ (p : ℝ) := by exact_mod_cast hp
-    positivity
+  cases hn : initNode e t with
+  | error er => simp [hn] at h
+  | ok node =>
+    simp only [hn] at h
+    cases hl : lastAnUs e (node - tenMin) with
+    | error er => simp [hl] at h
+    | ok prev =>
+      simp only [hl, Except.ok.injEq] at h
+      obtain ⟨q1, q2⟩ := lastAnUs_spec e _ prev hl
+      unfold initNode at hn
+      unfold initAnTime at ht
+      split at hn
+      · rename_i hc
+        simp only [hc, if_true, Except.ok.injEq] at ht
+        cases hl2 : lastAnUs e (e.epoch + tenMin) with
+        | error er => simp [hl2] at hn
+        | ok n =>
+          simp only [hl2, Except.ok.injEq] at hn
+          obtain ⟨n1, n2⟩ := lastAnUs_spec e _ n hl2
+          have : node = n := by omega
+          subst this
+          exact ⟨node, prev, h.symm, n1, q1, q2, n2, fun hf => by rw [hc] at hf; cases hf⟩
+      · rename_i hc
+        simp only [Except.ok.injEq] at hn
+        have hnode : node = t := by omega
+        subst hnode
+        simp only [hc] at ht
+        obtain ⟨n1, n2⟩ := lastAnUs_spec e _ node ht
+        exact ⟨node, prev, h.symm, n1, q1, q2, by unfold tenMin; omega, fun _ => rfl⟩
+
+theorem period_positive (e : Env ℝ) (t p : Int) (ht : initAnTime e = .ok t) (h : initPeriod e t = .ok p) :
+    600000000 ≤ p ∧ (0 : ℝ) < periodDays p := by
+  obtain ⟨node, prev, h1, _, _, h4, _, _⟩ := period_from_precise_nodes e t p ht h
+  have hp : 600000000 ≤ p := by unfold tenMin at h4; omega
+  refine ⟨hp, ?_⟩
+  rw [periodDays_real]
+  have : (600000000 : ℝ) ≤ (p : ℝ) := by exact_mod_cast hp
+  positivity
 
 /-! ### get_last_an_time: termination -/
 
@@ -428,12 +453,15 @@ example : crossingTime (fun i : Int => (i : ℝ)) (fun i : Int => (i : ℝ)) (fu
   simp only [h2, h0, r_sub, r_le, r_ofNat]
   norm_num
 
--- `reference_node_is_node`: an object whose epoch is exactly at the node (z = 0, vz > 0) has the epoch as reference node
-example : initAnTime ({ z := fun _ => 0, vz := fun _ => 1, epoch := 5, rev := 1, nd := 0, ndd := 0, fuelS := 1, fuelB := 1 } : Env ℝ)
+-- `reference_node_is_node`: an object whose epoch is at the node (z = 0.5 km, vz > 0) has the epoch as reference node
+example : initAnTime ({ z := fun _ => 0.5, vz := fun _ => 1, epoch := 5, rev := 1, nd := 0, ndd := 0, fuelS := 1, fuelB := 1 } : Env ℝ)
     = .ok 5 := by
-  unfold initAnTime initAnArg
-  simp [r_gt, r_lt, r_abs, r_ofNat]
-  norm_num
+  have h : epochAtNode ({ z := fun _ => 0.5, vz := fun _ => 1, epoch := 5, rev := 1, nd := 0, ndd := 0, fuelS := 1, fuelB := 1 } : Env ℝ) = true := by
+    rw [epochAtNode_iff]; constructor
+    · rw [abs_of_pos (by norm_num)]; norm_num
+    · norm_num
+  unfold initAnTime
+  rw [if_pos h]
 
 -- the cache invariant is met by a fresh object, and the slots of the model are exercised by the driver
 example {α : Type} [Num α] (e : Env α) : SlotsOk e fresh := slotsOk_fresh e
